@@ -119,12 +119,19 @@ func runC13(o Opts) error {
 	hdr.WriteString(hdr13 + "\n")
 	defs := map[string]string{}
 	maxOff, minGap := int64(0), int64(1<<62)
+	seenTables, aliases := map[string]bool{}, 0
 	for _, name := range zones {
 		loc, err := time.LoadLocation(name)
 		if err != nil {
 			continue
 		}
 		init, ts := zoneTable(loc)
+		sig := tableCoq(init, ts)
+		if thorough && seenTables[sig] { // a link to / copy of a zone already in the list (the tz database has many)
+			aliases++
+			continue
+		}
+		seenTables[sig] = true
 		zs = append(zs, zinfo{name, loc, init, ts})
 		defs[fmt.Sprintf("zt%d", len(zs)-1)] = fmt.Sprintf("Definition zt%d : ztable := %s.", len(zs)-1, tableCoq(init, ts))
 		prev := int64(-1 << 62)
@@ -142,6 +149,7 @@ func runC13(o Opts) error {
 	s.ShardSize = 400
 	s.Defs = defs
 	s.Extra["zones"] = len(zs)
+	s.Extra["zone_aliases_skipped"] = aliases
 	s.Extra["max_abs_offset_s"] = maxOff
 	s.Extra["min_interval_between_offset_changes_s"] = minGap
 	if o.Replay != "" {
@@ -234,7 +242,11 @@ func runC13(o Opts) error {
 				}
 				continue
 			}
-			allCtors = skips || thorough
+			if thorough && !skips && ti%4 != 0 {
+				continue
+			}
+			full := skips || (thorough && ti%8 == 0)
+			allCtors = full
 			for _, o := range []int64{before, tr.Off} {
 				lt := time.Unix(tr.At+o, 0).UTC() // wall clock reading at the change
 				for dd := -1; dd <= 1; dd++ {
@@ -242,7 +254,7 @@ func runC13(o Opts) error {
 					date(x.Year(), int(x.Month()), x.Day(), "date/around-offset-change")
 				}
 				dss := []int64{-3600, -1, 0, 1, 1799, 1800, 3599, 3600, 7200}
-				if !thorough && !skips {
+				if !full {
 					dss = []int64{-1, 0, 3599}
 				}
 				for _, ds := range dss {
@@ -257,7 +269,7 @@ func runC13(o Opts) error {
 				}
 			}
 		}
-		allCtors = true
+		allCtors = !thorough // (441 distinct zone tables in the thorough tier: one constructor per date, in rotation)
 		// month / year boundaries and random dates and date-times
 		for _, y := range []int{1, 2, 1899, 1900, 1969, 1970, 1999, 2000, 2024, 2037, 2038, 2068, 2069, 2100, 9999} {
 			date(y, 1, 1, "date/year-boundary")
